@@ -405,6 +405,11 @@ func runC07Numbers(t *fw.T) {
 		add("hex", fw.Pick(r, []string{"0x", "0X"})+digits(r, 1+r.IntN(13), "0123456789abcdefABCDEF"))
 		add("binary", fw.Pick(r, []string{"0b", "0B"})+digits(r, 1+r.IntN(52), "01"))
 		add("octal", fw.Pick(r, []string{"0o", "0O"})+digits(r, 1+r.IntN(17), "01234567"))
+		// spellings with leading zeros: legacy octal (010 is 8) and octal-like decimals (089 is 89) of sloppy-mode
+		// ECMAScript; whatever of them xjs accepts must keep its value
+		add("leading-zeros", "0"+digits(r, 1+r.IntN(6), "01234567"))
+		add("leading-zeros", "0"+digits(r, 1+r.IntN(4), "0123456789"))
+		add("leading-zeros", "00"+digits(r, r.IntN(3), "01234567")+fw.Pick(r, []string{"", ".5", "e1"}))
 	}
 	checkLiterals(t, lits, "number")
 }
